@@ -219,7 +219,8 @@ def error_lines(chk, prog):
     for fn in (TREE + "parse_conf", TREE + "parse_section", TREE + "include", TREE + "quiet_assert"):
         b = prog.bodies.get(fn)
         if not b:
-            chk.floor(fn.split("::")[-1], 0, 1)
+            if not fn.endswith("::quiet_assert"):      # (the assertion helper may have been folded into its callers)
+                chk.floor(fn.split("::")[-1], 0, 1)
             continue
         for blk, t in b.calls_to(r"error::ConfigError::new$"):
             n += 1
